@@ -99,6 +99,16 @@ func (m *MMap) Size() (int64, error) {
 	return m.virtualSize, nil
 }
 
+func (m *MMap) Truncate(size int64) error {
+	if size < 0 || size > m.virtualSize {
+		return fmt.Errorf("invalid truncate size %d, current size %d", size, m.virtualSize)
+	}
+	// 被丢弃的部分需要清零, 后续写入会从新的末尾开始
+	clear(m.activeMap[size:m.virtualSize])
+	m.virtualSize = size
+	return nil
+}
+
 func (m *MMap) ResetFileSize() error {
 	return m.file.Truncate(m.virtualSize)
 }
